@@ -105,6 +105,9 @@ def literal_program(rng):
 # erroneous programs with SEVERAL faults of one kind: which one is reported (message and line) is part of the output
 _L4 = ['first', 'second', 'third', 'fourth', 'fifth', 'sixth']
 ERROR_PROGRAMS = {
+    # a function named like a literal table (refused since c09ff6c; before: two outputs for one source)
+    'err_cctmp_function': 'char *p; char *q; void cctmp0() {} void main() { p = "a"; q = "b"; cctmp0(); }\n',
+    'err_cctmp_function2': 'char *p; void cctmp1() {} void cctmp() {} void main() { p = "a"; cctmp1(); p = "b"; }\n',
     'err_dup_labels': 'void main() {\n' + ''.join('%s: X++;\n' % l for l in _L4) + ''.join('%s: Y++;\n' % l for l in reversed(_L4)) + '}\n',
     'err_dup_labels3': 'void main() {\n' + ''.join('%s: X++;\n%s: Y++;\n' % (l, l) for l in _L4) + '}\n',
     'err_unknown_gotos': 'void main() {\n' + ''.join('if (X) goto %s;\n' % l for l in _L4) + '}\n',
@@ -171,6 +174,26 @@ def run(ctx):
         rng.shuffle(order2)
         jobs = ''.join(compile_job(k, srcs[k], args=['-O1'], want=want) for k in order2)
         fresh.append(dict(zip(order2, run_ccv(jobs, tag='fresh', threads=1 + rng.randrange(NCPU)))))
+    # one worker thread, every compilation under its own input name: nothing of an earlier compilation (its
+    # file name, its macros, its literals) may show up in a later one
+    ekeys = [k for k in keys if k in ERROR_PROGRAMS] + [k for k in keys if k.startswith('h')][:20]
+    rng.shuffle(ekeys)
+    named = {k: 'unit_%d.c' % i for i, k in enumerate(ekeys)}
+    # (the harness compiles an erroneous unit `previous_<i>.c` on the SAME thread right before each of them)
+    jobs = ''.join(compile_job(k, srcs[k], args=['-O1'], want=want, name=named[k], prename='previous_%d.c' % i) for i, k in enumerate(ekeys))
+    seq = dict(zip(ekeys, run_ccv(jobs, tag='seq', threads=1)))
+    for k in ekeys:
+        r = seq[k]
+        e = r.get('err') or {}
+        if r.get('status') == 'err' and e.get('file') not in (None, named[k]) and not str(e.get('file')).endswith('.h'):
+            viol.append({'why': 'a diagnostic names the input of ANOTHER compilation of the same process: %s (this one is %s)' % (e.get('file'), named[k]),
+                         'program': srcs[k], 'status_1': (r.get('status'), e)})
+        b = dict(res1[k])
+        b.pop('repeat_same', None)
+        b.pop('other', None)
+        if canon(r).replace(named[k], 'main.c') != canon(b):
+            viol.append({'why': 'the result depends on what the same thread compiled before (or on the input name)', 'program': srcs[k],
+                         'status_1': (r.get('status'), r.get('err')), 'status_2': (b.get('status'), b.get('err'))})
     ncomp = 0
     for k in keys:
         r = res1[k]
